@@ -54,6 +54,8 @@ func Register(r *mc.Registry, prop string, cases []Case, covered map[string][]st
 		"operand_vectors":      "every vector over {success_i, failure_i} (Option/Try/Either/StateT) resp. {[], [v], [v w]} (Seq/List/Iterator) resp. every constructor (Eval, fn0, fn1) at every operand position",
 		"callback_letters":     map[string]int{"option": KLOption, "try": KLTry, "either": KLEither, "statet": KLStatet, "seq": KLSeq, "list": KLList, "iterator": KLIterator, "lazy": KLEval, "fn0": KLFn0, "fn1": KLFn1},
 		"error_families":       "Try/StateT positions and callbacks fail, per execution, with the private sentinels e_i or (one family per rotation) with the library's own errors: fp.ErrOptionEmpty built by try.Failure, fp.ErrOptionEmpty built by try.FromOption(option.None()), fp.ErrTryNotFailed, fp.ErrFutureNotFailed, a distinct fp.Error(404, \"Option.empty\") look-alike, and fmt.Errorf(\"%w\", fp.ErrOptionEmpty); over the rotations every position fails with every one of them",
+		"iterator_sources":     "every combinator that consumes an Iterator (FoldM, Traverse, TraverseFunc, SequenceIterator, try.Traverse_) is driven by an instrumented source whose HasNext/Next are logged callbacks, in three variants: the plain source, the source behind Iterator.Filter with a logged predicate, the source behind iterator.FilterMap with a logged function (both with rejected elements before every element and after the last); the definition pulls the next element inside the continuation of the previous one (StateT: the fold drains the source while building the action)",
+		"zero_values":          "the legal zero values are operands: lazy.Eval[T]{} (every Eval operand position and a callback letter; value = zero T), fp.Iterator[T]{} (= empty), fp.Option[T]{} (= None), nil Seq; a zero fp.Try is not a value of the domain (Failed().Get() panics on it)",
 		"traverse_elements":    "0..3 elements (thorough: 0..4), every subset of elements on which the function fails",
 		"compositions":         "every expression tree of depth <= 2 over {operand, Map, Replace, LiftM, Flatten.Map, Map2, Ap.Map, FlatMap2, Map.Zip} per generated package (thorough: plus every unary node on top of such a tree), every failing subset of its operands, every letter of its callbacks",
 		"initial_states":       States,
